@@ -59,7 +59,7 @@ def case(draw):
         c["t"] = draw(units.tree(max_leaves=2, allow_frac=False))
         c["cscale"] = list(draw(st.sampled_from(SCALES)))
         c["cpi"] = draw(st.sampled_from([0, 0, 0, 1, -1]))
-        c["bigprime"] = draw(st.sampled_from([None, None, 2305843009213693951, 18446744073709551557, 9223372036854775837]))
+        c["bigprime"] = draw(st.sampled_from([None, None, 2305843009213693951, 18446744073709551557, 9223372036854775837, 13835058055282163729]))
         c["tscale"] = list(draw(st.sampled_from(SCALES)))
     else:
         c["const"] = draw(st.sampled_from(sorted(CONSTS)))
